@@ -4,7 +4,9 @@
                        | 3 storage NewWritable on a stream | 4 deferred writer for a path | 5 deferred writer for a stream
                 roots : (cid ...) or tnil ; batches : (((cid data) ...) ...)
               output = (openresult ((out ...) ...) finalizeout file inspectverdict verifyverdict)
-   finalfile: input  = (opts file hoktab hdrtab expect)   expect: 0 nothing (mutated file), 1 produced by a finalizing writer
+   finalfile: input  = (opts file hoktab hdrtab expect)   expect: 0 nothing (mutated file), 1 left by store.Finalize
+                                                            (fully-indexed bit = StoreIdentityCIDs), 2 produced by WrapV1 / a
+                                                            traversal writer / car index (bit never set: one-directional clause)
               output = (inspectverdict verifyverdict)
    verdicts: tok | trej | tORACLE-MISS | tFUEL *)
 From Coq Require Import Strings.String.
@@ -109,7 +111,7 @@ Definition prop_finalfile (input obs : val) : val :=
   let hok := hok_lookup (vL (vnth 2 input)) in
   if vN (vnth 4 input) =? 0 then VT "ok"
   else
-    match wf_parse o file with
+    match wf_finished (vN (vnth 4 input) =? 1) o file with
     | None => fail "not-wellformed" ""
     | Some (roots, bs) =>
       if negb (readable_b hok roots bs) then VT "ok"
